@@ -13,6 +13,9 @@ def run(ctx, idx):
     ctx.rule("C09.a", "At every in-place site of every execute body and helper (augmented assignment, subscript store, .mask store, mutating method, out= argument, helper that writes its argument) the target's may-alias set contains no input and no view of an input.")
     ctx.rule("C09.b", "insure_fuzzy's summary (writes argument 0, returns argument 0) is computed from its body, not trusted.")
     ctx.rule("C09.c", "Outside Command.run nothing stores to the memo field, and no package code writes through `<x>.result`.")
+    ctx.rule("C09.d", "A result is its producer's own: no execute body hands out arrays it keeps in module-level state or gets from a cached helper, unless each such array is copied where it is taken out (decided before the array analyser runs). A buffer kept between executions is one buffer under every result made from it - the in-place work a later producer does on 'its' array (rounding, stamping fill values, clamping) changes the result an earlier command produced.")
+    n_kept = R.no_kept_state(ctx, idx, "C09.d", None, "; a later execution that works in place on what it was handed changes the values an earlier command's result holds", copies_suffice=True)
+    ctx.floor("C09.d", "execute bodies", n_kept, 30)
     kinds = {}
     n_sites = 0
     for key, (d, r) in sorted(R.results(idx).items()):
